@@ -16,7 +16,8 @@ RULE = ('case = residue string of length 1..10 with pre-existing residue/termina
         'eligible sites and (two or more groups, or a pre-modified site, or a terminal rule)')
 ASSUMPTIONS = [
     'only consuming target patterns are generated (a zero-width target has no documented residue); sites are computed by character logic',
-    'group tokens are distinct across rules and from pre-existing modifications, so equal output forms are duplicates',
+    'group tokens are mostly fresh; about one group in six repeats an earlier group or the modifications a site already carries - a form reachable in two ways is still one form (expected set, not multiset)',
+    'static overwrite: the pre-existing modifications of a site are replaced once, every rule matching the site contributes (not last-rule-wins)',
     'terminal rules do not count against max_mods (as the documented examples show)',
     'append / overwrite variable modes: only the weaker clauses the property lists are asserted',
 ]
